@@ -22,7 +22,7 @@ P = {
          "DESIGN.md 4/C03"),
  "C04": (True, "progbatch+expander",
          "generated programs with raw-word layout oracles + expansion determinism over fresh processes",
-         "In every generated (definition, container) case the concrete object is compared with its opaque form (size, alignment, all bytes preserved by into_opaque) and the static vtable is read as raw words: exactly one pointer per exported method, word i == public getter of the i-th declared method. Generated groups: vtable pointers read from the raw words of the group object must sit at mandatory-by-name then optional-by-name positions (null exactly when not enabled), then the container (instance first, context next, no extra field), and the cast form must have the identical words, the final (into!) form the kept pointers in name order; every single-trait object is {vtable pointer, container{instance, context, temporary storage}} at the computed offsets, and a borrowed wrapped return lies inside the object that lent it; from the expansion, every group struct lists its vtable pointers and its container the temporary storage of its traits as mandatory-by-name then optional-by-name. Each definition is also expanded (plain and through the #[cglue_trait_ext] route) in 8 (quick) / 32 (thorough) fresh processes under three expanding crates and the ordered (struct, fields) lists of all repr(C) structs must be identical.",
+         "In every generated (definition, container) case the concrete object is compared with its opaque form (size, alignment, all bytes preserved by into_opaque) and the static vtable is read as raw words: exactly one pointer per exported method, word i == public getter of the i-th declared method. Generated groups: vtable pointers read from the raw words of the group object must sit at mandatory-by-name then optional-by-name positions (name = the identifier resp. alias, compared as bytes; trait names and aliases are generated with mixed case so that this differs from the order ignoring case; null exactly when not enabled), then the container (instance first, context next, no extra field), and the cast form must have the identical words, the final (into!) form the kept pointers in name order; every single-trait object is {vtable pointer, container{instance, context, temporary storage}} at the computed offsets, and a borrowed wrapped return lies inside the object that lent it; from the expansion, every group struct lists its vtable pointers and its container the temporary storage of its traits as mandatory-by-name then optional-by-name. Each definition is also expanded (plain and through the #[cglue_trait_ext] route) in 8 (quick) / 32 (thorough) fresh processes under three expanding crates and the ordered (struct, fields) lists of all repr(C) structs must be identical.",
          "vtable pointers are obtained through public accessors (get_vtbl, GetVtblBase, cast+upcast), never through field names",
          "DESIGN.md 4/C04"),
  "C06": (True, "rtprops+progbatch",
